@@ -14,7 +14,7 @@ import lib
 from props import cons as C
 from props import textcmp as T
 
-TEXTS = ['a', 'bb', "q'uote", 'double"q', 'back\\slash', 'é', '雪だるま', 'new\nline', 'x y', 'ccc', '12', 'A1', 'percent%',
+TEXTS = ['a ', 'padded   ', ' lead', 'tab\t', 'a', 'bb', "q'uote", 'double"q', 'back\\slash', 'é', '雪だるま', 'new\nline', 'x y', 'ccc', '12', 'A1', 'percent%',
          "it's", "''", 'semi;colon', 'tab\t', 'z' * 30]
 F_TYPES = 'c08-declared-type-names'
 F_DATES = 'c08-date-formats'
